@@ -498,7 +498,7 @@ pub fn run_check<P: Property>(o: &RunOpts) -> i32 {
 
     // ---- cross-process determinism sample ------------------------------------
     let mut cross_checked = 0u64;
-    if P::CROSS_PROCESS_RUNS > 0 && o.write_evidence {
+    if P::CROSS_PROCESS_RUNS > 0 && o.digests_out.is_none() {
         let n = (P::CROSS_PROCESS_RUNS * if o.tier == Tier::Thorough { 10 } else { 1 }).min(total);
         let mut groups: Vec<Vec<(i64, u64, u64)>> = Vec::new();
         for (gi, gw) in [8u64, 5u64].iter().enumerate() {
@@ -787,6 +787,49 @@ pub fn minimise_cmd<P: Property>(inp: &Path, outp: &Path) -> i32 {
 pub fn replay_cmd<P: Property>(file: &Path, v: &Value) -> i32 {
     limit_address_space();
     let class = v["violation"]["class"].as_str().unwrap_or("").to_string();
+    if class.contains("different processes") {
+        // The violation is a difference between two PROCESSES that executed the same
+        // runs in another partition (8 and 5 workers): re-execute, in two fresh
+        // processes, exactly the runs those two workers executed up to this run.
+        let run = v["run"].as_i64().unwrap_or(0).max(0) as u64;
+        let seed = v["seed"].as_u64().unwrap_or(1);
+        let tier = if v["tier"].as_str() == Some("thorough") { Tier::Thorough } else { Tier::Quick };
+        let dir = std::env::temp_dir().join(format!("h263-sim-replay-{}", std::process::id()));
+        let _ = std::fs::create_dir_all(&dir);
+        let t0 = Instant::now();
+        let mut dg = Vec::new();
+        for (gi, gw) in [8u64, 5u64].iter().enumerate() {
+            let mut c = spawn_worker(P::ID, tier, seed, run % *gw, *gw, run + 1, &dir.join(format!("x{gi}.json")), true, t0);
+            let ok = c.proc.wait().map(|s| s.success()).unwrap_or(false);
+            let wo = std::fs::read(&c.out).ok().and_then(|b| serde_json::from_slice::<WorkerOut>(&b).ok());
+            let _ = std::fs::remove_file(&c.out);
+            match wo {
+                Some(wo) if ok => dg.push(wo.digests.iter().find(|d| d.0 == run as i64).map(|d| d.2)),
+                _ => {
+                    eprintln!("replay: a worker process failed");
+                    let _ = std::fs::remove_dir_all(&dir);
+                    return 2;
+                }
+            }
+        }
+        let _ = std::fs::remove_dir_all(&dir);
+        return match (dg[0], dg[1]) {
+            (Some(a), Some(b)) if a != b => {
+                println!("replay: class: {class}");
+                println!("replay: detail: run {run}: history digest {a:016x} as the last run of worker {} of 8, {b:016x} as the last run of worker {} of 5", run % 8, run % 5);
+                println!("VIOLATION property={} replay={}", P::ID, file.display());
+                1
+            }
+            (Some(_), Some(_)) => {
+                println!("replay: no violation (recorded class: {class})");
+                0
+            }
+            _ => {
+                eprintln!("replay: the run was not executed");
+                2
+            }
+        };
+    }
     match exec_value::<P>(&v["plan"]) {
         Err(e) => {
             eprintln!("replay: {e}");
